@@ -208,7 +208,7 @@ func HarnessC07_outputs() {
 	tok := c07Tokens[ndChoice(len(c07Tokens))]
 	s := ndStr(n, "print")
 	vAssume(!vContains(s, "$$"))
-	vAssume(vAnd(s != "m", vAnd(s != "l", s != "x"))) // the skeleton's own keys
+	vAssume(vAnd(vAnd(s != "m", s != "ll"), vAnd(s != "l", s != "x"))) // the skeleton's own keys
 	sub := c06Skeleton(pos, s, pos2, tok, func() any { return 7 }).(map[string]any)
 	w := ndChoice(5)
 	var tree any
@@ -231,8 +231,10 @@ func HarnessC07_outputs() {
 	vObserve("tree", tree)
 	outs, err := c06Eval(vCopy(tree))
 	vObserve("err", err != nil)
-	if tok == "$required" && pos2 != 0 && pos2 != 2 {
+	if tok == "$required" && pos2 != 0 && pos2 != 2 && ((pos != 0 && pos != 2) || vNoByte(s, '$')) {
 		// a bare $required as a value or list entry of the emitted subtree
+		// (not when s is a key that is itself evaluated, e.g. $"m": its
+		// result may collide with a sibling key, whose value then wins)
 		vAssert("C07.outputs.required", err != nil)
 	}
 	if err != nil {
